@@ -60,6 +60,8 @@ _date_re = re.compile(DATE_PATTERN)
 _time_re = re.compile(TIME_PATTERN)
 _double_re = re.compile(r'^\s*([+-]?([0-9]+(\.[0-9]*)?|\.[0-9]+)([eE][+-]?[0-9]+)?'
                         r'|[+-]?(INF|inf)|NaN|nan)\s*$')
+_decimal_re = re.compile(r'^\s*[+-]?([0-9]+(\.[0-9]*)?|\.[0-9]+)'
+                         r'([eE][+-]?[0-9]+)?\s*$')
 _integer_re = re.compile(r'^\s*[+-]?[0-9]+\s*$')
 _integer_b_re = re.compile(br'^\s*[+-]?[0-9]+\s*$')
 _duration_re = re.compile(
@@ -356,6 +358,12 @@ class InProtocolBase(ProtocolMixin):
                                                      cls_attrs.max_str_len:
             raise ValidationError(string, "Decimal %%r longer than %d "
                                           "characters" % cls_attrs.max_str_len)
+
+        # decimal.Decimal() is more liberal than the lexical space of
+        # xs:decimal: it also accepts digit group separators, non-ascii digits,
+        # NaN and Infinity. The exponent form is kept because Spyne emits it.
+        if _decimal_re.match(string) is None:
+            raise ValidationError(string, "Could not cast %r to decimal")
 
         try:
             return D(string)
